@@ -73,6 +73,7 @@ type vsCrashSnap struct {
 	view                           map[string][]byte // the directory as a surviving process would see it
 	tmpName, finalName             string
 	tempSynced, renamed, dirSynced bool
+	returned                       bool // pseudo site: Save has returned nil
 }
 
 type vsDisk struct {
@@ -213,6 +214,16 @@ func runC19(t *testing.T, r *simkit.Run) {
 	}
 	err := store.Save(ctx, c.next)
 	statefile.VerifCrashPointHook = nil
+	if err == nil && faultsOn && len(c.snaps) > 0 && r.InfraErr == "" {
+		// one more crash point: right after Save returned success. Whatever the
+		// sites reached so far made durable is all there is; the new state must
+		// be what survives.
+		last := c.snaps[len(c.snaps)-1]
+		if view, verr := vsReadDirFiles(c.workDir); verr == nil {
+			c.snaps = append(c.snaps, vsCrashSnap{site: "returned", view: view, tmpName: last.tmpName, finalName: last.finalName,
+				tempSynced: c.seen["temp-synced"], renamed: c.seen["renamed"], dirSynced: c.seen["dir-synced"], returned: true})
+		}
+	}
 	if err != nil {
 		r.Fail("save_error", fmt.Sprintf("saving a valid state (rev %d) failed: %v", c.next.Revision, err), nil)
 		return
@@ -400,8 +411,8 @@ func (c *vsC19) checkDisk(s vsCrashSnap, d vsDisk) {
 	case err != nil:
 		if c.prev == nil && errors.Is(err, os.ErrNotExist) {
 			outcome = "not-found"
-			if s.dirSynced {
-				r.FailSig("save_not_durable", sig, where+": the save had completed its directory sync, yet no state file exists", nil)
+			if s.dirSynced || s.returned {
+				r.FailSig("save_not_durable", sig, where+": the save had completed (directory sync reached or Save returned), yet no state file exists", nil)
 				return
 			}
 		} else {
@@ -423,8 +434,8 @@ func (c *vsC19) checkDisk(s vsCrashSnap, d vsDisk) {
 			r.FailSig("crash_third_state", sig, fmt.Sprintf("%s: Load returns rev=%d applied=%d sum=%s, neither the previous nor the new state", where, got.Revision, got.AppliedRaftIndex, got.Checksum), nil)
 			return
 		}
-		if s.dirSynced && outcome != "new" && c.canonPrev != c.canonNext {
-			r.FailSig("save_not_durable", sig, where+": the save had completed its directory sync, yet the previous state is loaded", nil)
+		if (s.dirSynced || s.returned) && outcome != "new" && c.canonPrev != c.canonNext {
+			r.FailSig("save_not_durable", sig, where+": the save had completed (directory sync reached or Save returned), yet the previous state is loaded", nil)
 			return
 		}
 	}
